@@ -1,7 +1,7 @@
 ---------------------------- MODULE MC_TimeOfDay ----------------------------
 (* Bounded design check of TimeOfDay (job D for C07) on the real constants, over the lattice of values at which the
    case analysis of the time line changes. *)
-EXTENDS TimeOfDay, TLC
+EXTENDS TimeAddImpl, TLC
 CONSTANT Deep
 VARIABLES t, u, d, phase
 SecsL == IF Deep THEN {0, 1, 58, 59, 60, 3599, 3600, 43199, 43200, 86340, 86398, 86399} ELSE {0, 59, 60, 86398, 86399}
@@ -45,5 +45,7 @@ NoLeapIsModular ==   \* without a leap operand the result is plain modular arith
 NoLeapSinceIsDifference == (~IsLeapRep(t) /\ ~IsLeapRep(u)) => Since(t, u) = Sub(Pos(t), Pos(u))
 AddThenSince ==      \* moving by a sub-day distance that does not cross a day boundary is undone by Since
    (~IsLeapRep(t) /\ IsZero(AddSigned(t, d).carry)) => Since(AddSigned(t, d).t, t) = d
+\* the transcribed algorithm refines the time-line definition (impl/TimeAddImpl.tla)
+ImplRefines == ImplAdd(t, d) = AddSigned(t, d)
 LeapStay == (IsLeapRep(t) /\ IsLeapRep(AddSigned(t, d).t)) => AddSigned(t, d).t.secs = t.secs /\ IsZero(AddSigned(t, d).carry)
 =============================================================================
